@@ -92,17 +92,25 @@ func raceMode(a map[string]string) {
 				} else {
 					m = newMapInst(kind, -999999, false, false)
 				}
+				// a round lasts `ms` milliseconds AND at least `minops` operations per goroutine: on a loaded machine the
+				// round takes longer instead of exercising less (the counts are read after wg.Wait, no extra
+				// synchronisation inside the loop)
+				minOps := argInt(a, "minops", 0)
+				ops := make([]int, ng)
 				for gi := 0; gi < ng; gi++ {
 					wg.Add(1)
 					go func(gi int) {
 						defer wg.Done()
 						r := newRng(uint64(seed*1000 + round*100 + gi))
 						n := gi * 1_000_000
+						defer func() { ops[gi] = n - gi*1_000_000 }()
 						for {
-							select {
-							case <-stop:
-								return
-							default:
+							if n-gi*1_000_000 >= minOps {
+								select {
+								case <-stop:
+									return
+								default:
+								}
 							}
 							n++
 							k := fmt.Sprintf("k%d", r.intn(nkeys))
@@ -210,7 +218,14 @@ func raceMode(a map[string]string) {
 				time.Sleep(time.Duration(ms) * time.Millisecond)
 				close(stop)
 				wg.Wait()
-				fmt.Printf("round %d kind=%s goroutines=%d keys=%d done\n", round, kind, ng, nkeys)
+				tot, least := 0, -1
+				for _, o := range ops {
+					tot += o
+					if least < 0 || o < least {
+						least = o
+					}
+				}
+				fmt.Printf("round %d kind=%s goroutines=%d keys=%d ops=%d least=%d done\n", round, kind, ng, nkeys, tot, least)
 			}()
 		}
 		kindsWg.Wait()
